@@ -54,6 +54,12 @@ def extract(repo=REPO, extra_flags=(), jobs=16, use_cache=True):
     us = units(repo)
     key = _tree_hash(repo, flags)
     outdir = os.path.join(CACHE, key)
+    private = None
+    if not use_cache:
+        # scratch trees (self-tests, seeded changes): a private directory, removed after loading, so that
+        # concurrent runs neither share nor prune each other's files
+        import tempfile
+        private = outdir = tempfile.mkdtemp(prefix='c3dfacts-')
     info = {'units': us, 'flags': flags, 'cache_key': key, 'cached': False}
     want = [os.path.join(outdir, os.path.basename(u) + '.json') for u in us]
     if use_cache and all(os.path.exists(w) for w in want) and os.path.exists(os.path.join(outdir, 'ok')):
@@ -75,14 +81,20 @@ def extract(repo=REPO, extra_flags=(), jobs=16, use_cache=True):
         if bad:
             raise AnalysisBroken('unit failed to parse: %s\n%s' % (bad[0][0], bad[0][2]))
         open(os.path.join(outdir, 'ok'), 'w').write('ok')
-        _prune_cache(keep=key)
+        if private is None:
+            _prune_cache(keep=key)
     data = []
-    for w in want:
-        with open(w) as fh:
-            d = json.load(fh)
-        if d.get('errors'):
-            raise AnalysisBroken('unit %s has %d compile errors' % (d['unit'], d['errors']))
-        data.append(d)
+    try:
+        for w in want:
+            with open(w) as fh:
+                d = json.load(fh)
+            if d.get('errors'):
+                raise AnalysisBroken('unit %s has %d compile errors' % (d['unit'], d['errors']))
+            data.append(d)
+    finally:
+        if private is not None:
+            import shutil
+            shutil.rmtree(private, ignore_errors=True)
     return data, info
 
 
